@@ -1,0 +1,29 @@
+//go:build verif
+
+// Contracts for the verification harness in /verif (comment-only; no declarations).
+package v2
+
+//@ pred noNilChildren(m) = forall g api.GroupVersionKind, k string :: has(m, g) && has(m[g], k) ==> m[g][k] != nil
+
+//@ func MakeUniformObjectMap(parent, list) (m)
+//@   requires forall i int :: 0 <= i && i < len(list) ==> list[i] != nil
+//@   writes [C17,C03] fresh
+//@   safety C13
+//@   ensures [C03] m != nil && fresh(m)
+//@   ensures [C03] noNilChildren(m)
+
+//@ func UniformObjectMap.InsertAll(m, parent, objects) ()
+//@   requires m != nil
+//@   requires forall i int :: 0 <= i && i < len(objects) ==> objects[i] != nil
+//@   writes [C17,C03] m, elems(m)
+//@   safety C13
+//@   invariant loop 1 [C17,C03]: forall g api.GroupVersionKind :: has(m, g) ==> m[g] == nil || fresh(m[g]) || (old(has(m, g)) && m[g] == old(m[g]))
+//@   invariant loop 1 [C03]: old(noNilChildren(m)) ==> noNilChildren(m)
+//@   ensures [C03] old(noNilChildren(m)) ==> noNilChildren(m)
+
+//@ func UniformObjectMap.Insert(m, parent, obj) ()
+//@   requires m != nil && obj != nil
+//@   writes [C17,C03] m, elems(m)
+//@   safety C13
+//@   ensures [C17,C03] forall g api.GroupVersionKind :: has(m, g) ==> m[g] == nil || fresh(m[g]) || (old(has(m, g)) && m[g] == old(m[g]))
+//@   ensures [C03] old(noNilChildren(m)) ==> noNilChildren(m)
